@@ -4,6 +4,7 @@ import Qentem.Proofs.ExprScanTotal
 import Qentem.Proofs.TmplRenderSafe
 import Qentem.Proofs.TmplParseVarRaw
 import Qentem.Proofs.TmplLoopVar
+import Qentem.Proofs.TmplParseLoop
 import Qentem.Generated.Tmpl
 /-!
 # C01 — rendering any template text with any value is memory-safe and terminates
@@ -152,6 +153,38 @@ theorem render_safe_inline {R : Type} [RealLike R] (cx : RCtx R) (hg : cx.guardI
 /-- non-vacuity: `{math:({var:a}+1)*2}}{var:b}` satisfies the hypothesis -/
 example : OnlyUpTo 4 ("{math:({var:a}+1)*2}}{var:b}".toList.map Char.toNat) :=
   onlyUpTo_of_check 4 _ (by decide)
+
+/-- `parse_wf`, stage "loops": if from no offset the Finder reports anything but `}`, `{var:`,
+`{raw:`, `{math:`, `<loop`, `</loop>` (`OnlyLoops`; decidable form `onlyLoopsB`), the tag scanner
+makes no out-of-range read and what it returns is well-formed — for every nesting depth, every
+attribute text (`set=`, `value=`, `sort=`, `group=`, in any order, repeated, unterminated, beyond
+the 8-bit offset fields), closed, unclosed or stray `</loop>`, loop-bound variables in `{var:}`,
+`{raw:}`, `{math:}` and `set=`.  Covers the length-unchecked comparisons of `checkLoopVariable`
+(`checkLoopVariable_safe`) at all their call sites: the invariant `ChainOk` (a loop's value text
+lies inside the content and holds neither `}` nor `>`) is kept by `stepLoop` (Finder facts
+`next_facts`, `parseLoopAttributes_safe`). -/
+theorem parse_wf_loops {R : Type} (cfg : ScanCfg R) (c : List Nat)
+    (hn : c.length + 16 < 4294967296) (h : OnlyLoops c) :
+    Safe (parse cfg c) (fun tags => wf c.length tags = true) :=
+  Qentem.Tmpl.parse_wf_loops cfg c hn h
+
+/-- End-to-end for that sub-language: parse + render makes no out-of-range access, for every
+value, formatter, escape setting, sort and group function. -/
+theorem render_safe_loops {R : Type} [RealLike R] (cx : RCtx R) (hg : cx.guardIndexRead = true)
+    (cfg : ScanCfg R) (hn : cx.content.length + 16 < 4294967296) (h : OnlyLoops cx.content)
+    (fuel : Nat) :
+    Safe ((parse cfg cx.content).bind (fun tags => renderTop cx tags fuel)) (fun _ => True) :=
+  Qentem.Tmpl.render_safe_loops cx hg cfg hn h fuel
+
+set_option maxRecDepth 20000 in
+/-- non-vacuity: a loop with a loop-bound variable, a stray `</loop>` and an unclosed loop -/
+example : OnlyLoops ("<loop value='v'>{var:v}</loop></loop><loop>{math:1}".toList.map Char.toNat) :=
+  onlyLoops_of_check _ (by decide)
+
+/-- what a Finder result says about the content (lemma L1 of the staged proof) -/
+theorem finder_facts (c : List Nat) (hn : c.length + 16 < 4294967296) (off o m : Nat)
+    (hoff : off ≤ c.length) (h : next c off = .ok (o, m)) : NextFacts c off o m :=
+  next_facts c hn off o m hoff h
 
 /-- `checkLoopVariable` compares the variable text with every enclosing loop's value name by
 `IsEqual(var, value, ValueLength)` without looking at the variable's own length.  No read leaves
